@@ -24,6 +24,11 @@ def available():
 
 def run_rules(run, only=None):
     mod = load(run.prop)
+    canon = getattr(run.idx, 'canonicalised', [])
+    if canon:
+        # findings below use the recorded names; say which source names they stand for
+        run.notes.append('names canonicalised (source name -> recorded name): ' + ', '.join('%s: %s -> %s' % (sc, new, old) for sc, new, old, _ in canon[:12]) +
+                         (' ...' if len(canon) > 12 else ''))
     for rid, text, fn in mod.RULES:
         if only and rid not in only:
             continue
